@@ -40,6 +40,8 @@ CODECS = {
     "bz2": (bz2.compress, bz2.decompress),
     "lzma": (lzma.compress, lzma.decompress),
     "identity": (lambda b: b, lambda b: b),
+    # the library's own defaults (nothing passed for compress / decompress): documented as zlib
+    "default": (zlib.compress, zlib.decompress),
 }
 
 
@@ -123,7 +125,8 @@ def shared(kind, proto, mcl=None, codec=None):
             _SERDES[k] = serde.PickleSerde(pickle_version=proto)
         else:
             comp, decomp = CODECS[codec]
-            _SERDES[k] = serde.CompressedSerde(compress=comp, decompress=decomp, serde=shared("pickle", proto), min_compress_len=mcl)
+            kw = {} if codec == "default" else {"compress": comp, "decompress": decomp}
+            _SERDES[k] = serde.CompressedSerde(serde=shared("pickle", proto), min_compress_len=mcl, **kw)
     return _SERDES[k]
 
 
@@ -132,7 +135,8 @@ def check_compressed(res, st, v, proto, mcl, codec, case, fresh=False):
     comp, decomp = CODECS[codec]
     if fresh:
         inner = serde.PickleSerde(pickle_version=proto)
-        sd = serde.CompressedSerde(compress=comp, decompress=decomp, serde=inner, min_compress_len=mcl)
+        kw = {} if codec == "default" else {"compress": comp, "decompress": decomp}
+        sd = serde.CompressedSerde(serde=inner, min_compress_len=mcl, **kw)
     else:
         inner = shared("pickle", proto)
         sd = shared("compressed", proto, mcl, codec)
@@ -180,6 +184,8 @@ def straddle_values(rng, mcl):
             out.append(int("9" * n))
             out.append(-int("1" + "0" * max(0, n - 2)) if n >= 2 else -1)
     out.append(b"abc" * 2000)
+    out.append(b"\x00" * ((3 << 20) + 7))            # compresses to a few KiB: the stored form fits any item limit
+    out.append("z" * ((1 << 20) + 5))
     out.append(bytes(rng.randrange(256) for _ in range(3000)))
     out.append(int("7" * 4000))
     out.append(-int("3" * 1234))
